@@ -2801,6 +2801,15 @@ func (col *DatabaseCollectionWithUser) documentUpdateFunc(
 		return
 	}
 
+	// The caller only learns doc.Sequence when this function succeeds. If a later step fails, hand a sequence that
+	// was newly allocated by this attempt back with the unused sequences so that the caller releases it.
+	assignedSequence := doc.Sequence
+	defer func() {
+		if err != nil && assignedSequence != previousDocSequenceIn {
+			retUnusedSequences = append(retUnusedSequences, assignedSequence)
+		}
+	}()
+
 	// The callback has updated the HLV for mutations coming from CBL. Set the current version (to the
 	// pre-generated value for new-version events) before updateChannels, which needs it for removals.
 	doc, err = col.updateHLV(ctx, doc, docUpdateEvent, mouMatch, generatedVersion)
